@@ -180,4 +180,29 @@ theorem parseFile_bytesOf (f : SegFile) (hrs : ∀ r ∈ f.recs, RecOK r)
     exact this
   omega
 
+/-! ## the FNV-1a of the listings is the FNV-1a of the file's bytes -/
+
+theorem fnvBytes_append (h : UInt64) (a b : List UInt8) : fnvBytes h (a ++ b) = fnvBytes (fnvBytes h a) b := by
+  simp [fnvBytes, List.foldl_append]
+
+theorem fnvBytes_zeros : ∀ (n : Nat) (h : UInt64), fnvBytes h (List.replicate n 0) = h * powU64 fnvPrime n
+  | 0, h => by simp [fnvBytes, powU64]
+  | n + 1, h => by
+    have ih := fnvBytes_zeros n ((h ^^^ (0 : UInt8).toUInt64) * fnvPrime)
+    simp only [fnvBytes, List.replicate_succ, List.foldl_cons] at ih ⊢
+    rw [ih]
+    have : (0 : UInt8).toUInt64 = 0 := rfl
+    rw [this, UInt64.xor_zero, powU64, UInt64.mul_assoc]
+
+theorem fnvRec_eq (h : UInt64) (r : Rec) : fnvRec h r = fnvBytes h (encRec r) := by
+  simp only [fnvRec, encRec, fnvBytes_append, fnvBytes_zeros]
+
+theorem fnvFile_eq (f : SegFile) : fnvFile f = fnvBytes fnvInit (bytesOf f) := by
+  have : ∀ (rs : List Rec) (h : UInt64), rs.foldl fnvRec h = fnvBytes h (rs.flatMap encRec) := by
+    intro rs
+    induction rs with
+    | nil => intro h; simp [fnvBytes]
+    | cons r rs ih => intro h; simp only [List.foldl_cons, List.flatMap_cons, fnvBytes_append, fnvRec_eq, ih]
+  simp only [fnvFile, bytesOf, fnvBytes_append, this]
+
 end Nomt.Seg
